@@ -1397,6 +1397,47 @@ fn run_tuple(
             }
         }
         rep.judge(&key, &input, &rust, &imp, &spec);
+        // The same form written lexically inside `freeze` (operands as parameters, and operands
+        // as free outer variables, which freeze turns into constants) must give what it gives
+        // unfrozen: the interpreter against itself, and against the model's unfrozen prediction.
+        if c.is_leaf || !c.label.starts_with("rnd:") {
+            let params = names[..n].join(", ");
+            let variants = [
+                ("frozen-params", format!("(freeze \\{} -> ({}))({})", params, src, params)),
+                ("frozen-consts", format!("(freeze \\ -> ({}))()", src)),
+            ];
+            for (tag, fsrc) in variants.iter() {
+                let fout = ctx.eval_with(&binds, fsrc);
+                let frozen = class(&fout);
+                rep.case(fsrc, nontrivial);
+                rep.arm(tag);
+                if frozen == rust {
+                    continue;
+                }
+                let mut unstable = false;
+                for _ in 0..24 {
+                    if class(&ctx.eval_with(&binds, fsrc)) != frozen || class(&ctx.eval_with(&binds, &src)) != class(&out) {
+                        unstable = true;
+                        break;
+                    }
+                }
+                if unstable {
+                    rep.arm("result not deterministic (HashMap order inside; not judged)");
+                    continue;
+                }
+                let fkey = format!("{}:{}", key, tag);
+                let n = rep.arms.get(&format!("disagreements of {}", fkey)).cloned().unwrap_or(0);
+                rep.arm(&format!("disagreements of {}", fkey));
+                if n >= 3 {
+                    continue;
+                }
+                let finput = format!("{}\nfrozen: {}   [{}]", input, tag, fsrc);
+                if verbose {
+                    println!("  {}: {}   [{}]", tag, detail(&fout), fsrc);
+                }
+                rep.judge(&fkey, &finput, &frozen, &imp, &rust);
+            }
+        }
     }
 }
 
